@@ -67,7 +67,8 @@ fn stall_s(ctx: &Ctx) -> f64 {
 
 fn outer_s(ctx: &Ctx) -> f64 {
     if ctx.mode == "miri" {
-        1500.0
+        // (the shard's own watchdog is 3000 s; a thorough run next to another one once needed more than 1500 s)
+        2700.0
     } else if ctx.mode == "tsan" {
         900.0
     } else {
